@@ -97,6 +97,9 @@ def run(w) -> None:
                     if what != "snapshot" and data["bad"]["outcome"] != "return":
                         w.violation("C15/disabled-contract-enforced/{}".format(what), "{} (mode {}, ICONTRACT_SLOW={!r}): violating input raised {}".format(
                             item, mname, sval, data["bad"].get("type")), case, data)
+                elif what in ("invariant-async-condition", "invariant-invalid-error"):
+                    # (an enabled invariant refuses these arguments when it is created: C19's business)
+                    w.count("enabled_items_skipped")
                 else:
                     w.count("enabled_items_checked")
                     if data["ok"]["outcome"] != "return":
